@@ -38,12 +38,12 @@ ASSUMPTIONS = [
 ]
 OID = [1, 3, 6, 1, 2, 1, 1, 1, 0]
 SUBST = [0x00, 0x01, 0x02, 0x04, 0x05, 0x06, 0x30, 0x7F, 0x80, 0x81, 0x82, 0x84, 0xFF]
-BUDGET = 0.4
+BUDGET = 1.0  # CPU seconds (see berlib.guarded); generous: tracemalloc and a loaded machine cost a factor ~10
 
 
 def budget(dg):
     """time allowed for one delivery: a constant plus a small multiple of the datagram size"""
-    return BUDGET + 25e-6 * len(dg)
+    return BUDGET + 60e-6 * len(dg)
 
 
 def fixed_clock():
@@ -122,10 +122,10 @@ def deliver_response(version, level, dg, warm=True):
     if warm and version == "v3":
         W.run(client.get(RA.OID(OID)))
     s.queue.append(dg)
-    t0 = time.perf_counter()
+    t0 = time.process_time()
     with fixed_clock():
         r = BL.guarded(lambda: W.run(client.getnext(RA.OID(OID[:-1]))), budget(dg))
-    dt = time.perf_counter() - t0
+    dt = time.process_time() - t0
     s.queue.clear()
     after = BL.guarded(lambda: RA.canon_value(W.run(client.get(RA.OID(OID)))), 2.0)
     return r[0], dt, after == ("ok", ["str", "6f6b"])
@@ -134,10 +134,10 @@ def deliver_response(version, level, dg, warm=True):
 def deliver_discovery(level, dg):
     agent, s, client = make_world("v3", level)
     s.queue.append(dg)
-    t0 = time.perf_counter()
+    t0 = time.process_time()
     with fixed_clock():
         r = BL.guarded(lambda: W.run(client.get(RA.OID(OID))), budget(dg))
-    dt = time.perf_counter() - t0
+    dt = time.process_time() - t0
     s.queue.clear()
     after = BL.guarded(lambda: RA.canon_value(W.run(client.get(RA.OID(OID)))), 2.0)
     return r[0], dt, after == ("ok", ["str", "6f6b"])
@@ -148,9 +148,9 @@ def deliver_trap(dg, valid_trap):
 
     lst = Listener(b"public")
     try:
-        t0 = time.perf_counter()
+        t0 = time.process_time()
         r = BL.guarded(lambda: lst.inject([("10.0.0.1", 1234, dg)]), budget(dg))
-        dt = time.perf_counter() - t0
+        dt = time.process_time() - t0
         n = len(lst.got)
         lst.inject([("10.0.0.2", 1235, valid_trap)])
         return ("ok" if r[0] == "ok" else r[0]), dt, len(lst.got) == n + 1
@@ -318,14 +318,14 @@ def run(ctx):
     # cost of one long sub-identifier: linear?
     for n in ((2000, 8000) if ctx.quick else (2000, 8000, 16000, 60000)):
         dg = long_subid(n)
-        t0 = time.perf_counter()
+        t0 = time.process_time()
         agent, s, client = make_world("v2c", "noauth")
         s.queue.append(dg)
         from harness import opslib as OL
 
         with OL.with_clock([1000] * 4):  # the response carries request-id 1000
             r = BL.guarded(lambda: W.run(client.getnext(RA.OID(OID[:-1]))), 60.0)
-        dt = time.perf_counter() - t0
+        dt = time.process_time() - t0
         res.evaluations += 1
         res.count("long-subid")
         slow.append((n, dt))
